@@ -262,6 +262,23 @@ func runC20(w *World, r *Report, tier string) {
 			if other != "" {
 				badR3 = "the choice of transport depends on something other than the ws:/wss: prefix of config.Address: " + other
 			}
+			// the scheme is tested on the address as configured: once ensurePort has rewritten it (a URL with a port or
+			// an IPv6 host has several colons and comes back as "[url]:5222") the prefix is gone
+			{
+				rewritten := -1
+				forPath(path, func(i int, in ssa.Instruction) {
+					if st, ok := in.(*ssa.Store); ok && rewritten < 0 {
+						if fa, ok := rvI(st.Addr, i).(*ssa.FieldAddr); ok && fieldOfAddr(fa) == fAddr {
+							rewritten = i
+						}
+					}
+					if c, ok := in.(*ssa.Call); ok && w.callKey(c) == "strings.HasPrefix" && rewritten >= 0 {
+						if isCfgAddr(w.nfOn(c.Call.Args[0], path)) {
+							badR3 = "the scheme prefix is tested after the address has been normalised (" + w.ipos(c) + "): a websocket URL with a port or an IPv6 host is then taken for a TCP address"
+						}
+					}
+				})
+			}
 			// what is returned on this path
 			res0 := resolveOn(ret.Results[0], len(path)-1, path)
 			kind := "?"
